@@ -600,7 +600,7 @@ class PseudoNetCDFFile(PseudoNetCDFSelfReg, object):
         else:
             if method == 'bounds':
                 warn('Approximating bounds for val2idx {}'.format(dim))
-                dval = np.diff(dimvals) / 2
+                dval = np.diff(dimvals.astype('d')) / 2
                 start = dimvals[:1].astype('d')
                 end = dimvals[-1:].astype('d')
                 if (dval == dval[0]).all():
@@ -617,7 +617,7 @@ class PseudoNetCDFFile(PseudoNetCDFSelfReg, object):
             idx = np.arange(dimevals.size)
         else:
             idx = np.arange(dimvals.size)
-        ddimevals = np.diff(dimevals)
+        ddimevals = np.diff(np.asarray(dimevals, dtype='d'))
 
         if (ddimevals < 0).all():
             dimevals = dimevals[::-1]
